@@ -1,1 +1,474 @@
-/- property theorems for C05 (filled in below) -/
+/-
+C05 — representations are word homomorphisms; derived representations commute with evaluation;
+Fox calculus fundamental formula.
+
+Only property theorems and non-vacuity examples live here.  Models: `GT.Model.Words`,
+`GT.Model.Rep`; helper lemmas: `GT.Lemmas.Rep`, `GT.Lemmas.RepHom`, `GT.Lemmas.RepDerived`,
+`GT.Lemmas.Fox`, `GT.Lemmas.Names`, `GT.Lemmas.Sym2`, `GT.Lemmas.Sym2Rep`.
+
+Conventions.  `ρ.value w : Except String (Matrix (Fin n) (Fin n) R)` is the denotation (a Mathlib
+matrix) of what the executable `ρ.wordValue w` (the model of `Representation._word_value`, an
+array-backed `DMat`) returns; `.error "KeyError"` when a letter has no matrix.  `R` is an
+arbitrary commutative ring, `n` an arbitrary dimension, words are arbitrary lists of generator
+names.  `Rep.Coherent` / `Rep.WF` is the invariant of the `generators` dict (inverse letters
+hold inverse matrices); `setGenerator_wf` shows every history of assignments establishes it,
+under the contract `InvertOK` for `numpy.linalg.inv`.
+-/
+import GT.Lemmas.RepHom
+import GT.Lemmas.RepDerived
+import GT.Lemmas.Fox
+import GT.Lemmas.Names
+import GT.Lemmas.Sym2Rep
+import GT.Lemmas.RepHomUnits
+import GT.Lemmas.SlnAdjoint
+import Mathlib.Data.ZMod.Basic
+import Mathlib.Tactic.FinCases
+
+set_option linter.unusedSectionVars false
+
+namespace GT.C05
+open GT GT.RepW GT.RepW.Rep Matrix
+
+variable {n m : ℕ} {R S : Type} [Inhabited R] [CommRing R] [Inhabited S] [CommRing S]
+
+/-! ## word homomorphism -/
+
+/-- bridge: the materialising fold over `DMat` that the driver executes denotes the Mathlib
+product of the letters' matrices -/
+theorem wordValue_bridge (ρ : Rep n R) (w : Word) :
+    (ρ.wordValue w).map DMat.toMatrix = Rep.evalM ρ.genM w := Rep.value_eq_evalM ρ w
+
+/-- the empty word maps to the identity -/
+theorem wordValue_nil (ρ : Rep n R) : ρ.value [] = .ok 1 := Rep.value_nil ρ
+
+/-- the image of a concatenation is the product of the images (and is defined exactly when
+both images are) -/
+theorem wordValue_append (ρ : Rep n R) (u v : Word) :
+    ρ.value (u ++ v) = (do let a ← ρ.value u; let b ← ρ.value v; pure (a * b)) :=
+  Rep.value_append ρ u v
+
+/-- every history of assignments `rep[g] = A` (to lower- or upper-case names, re-assignments
+included) keeps the dict invariant — given that `utils.invert` returns an inverse, that the
+name is not its own inverse and that the inverse map is an involution on it (true of
+`invert_gen` on every name `_set_generator` accepts) -/
+theorem setGenerator_coherent {invert : DMat n n R → Option (DMat n n R)} (hinv : InvertOK invert)
+    {ρ σ : Rep n R} (hρ : ρ.WF) {g : Gen} {A : DMat n n R}
+    (hg2 : ρ.inv (ρ.inv g) = g) (hg1 : ρ.inv g ≠ g)
+    (h : ρ.setGenerator invert g A true = .ok σ) : σ.WF :=
+  Rep.setGenerator_wf hinv hρ hg2 hg1 h
+
+/-- **all orders of assigning and re-assigning generators**: any sequence of assignments
+`rep[g₁] = A₁; rep[g₂] = A₂; …` that the code accepts (names pass the guards of `_set_generator`,
+lower- or upper-case, repeated or not) on a fresh `Representation()` produces a dict in which
+every letter's inverse letter holds the inverse matrix — the only assumption is the contract
+of `numpy.linalg.inv`. -/
+theorem history_coherent {invert : DMat n n R → Option (DMat n n R)} (hinv : InvertOK invert)
+    (hist : List (Gen × DMat n n R)) (ps : Bool) (rels : List Word) {ρ : Rep n R}
+    (h : hist.foldlM (fun ρ h => ρ.setGenerator invert h.1 h.2 true)
+      ({ gens := [], inv := invertGen, parseSimple := ps, relations := rels } : Rep n R) = .ok ρ) :
+    ρ.WF ∧ ρ.inv = invertGen :=
+  Rep.history_wf hinv hist _ ρ (Rep.wf_empty invertGen ps rels) rfl h
+
+/-- on every name `_set_generator` accepts, `invert_gen` is an involution without fixed point -/
+theorem invertGen_involutive_on_valid {g : Gen} (hv : validName g = true) :
+    invertGen (invertGen g) = g ∧ invertGen g ≠ g := Rep.invertGen_of_valid hv
+
+/-- an inverse letter maps to the inverse matrix -/
+theorem wordValue_inv_letter {ρ : Rep n R} (hc : ρ.Coherent) {g : Gen} {A : Matrix (Fin n) (Fin n) R}
+    (h : ρ.value [g] = .ok A) : ρ.value [ρ.inv g] = .ok A⁻¹ ∧ A * A⁻¹ = 1 ∧ A⁻¹ * A = 1 :=
+  Rep.value_inv_letter hc h
+
+/-- freely reducing a word (the literal stack machine of `simplify_word`) does not change its image -/
+theorem wordValue_simplify {ρ : Rep n R} (hc : ρ.Coherent) {w : Word} {A : Matrix (Fin n) (Fin n) R}
+    (h : ρ.value w = .ok A) : ρ.value (simplifyWord ρ.inv w) = .ok A :=
+  Rep.value_simplify hc h
+
+/-- the formal inverse of a word maps to the inverse matrix -/
+theorem wordValue_formalInverse {ρ : Rep n R} (hc : ρ.Coherent) {w : Word} {A : Matrix (Fin n) (Fin n) R}
+    (h : ρ.value w = .ok A) : ρ.value (formalInverse ρ.inv w) = .ok A⁻¹ :=
+  Rep.value_formalInverse hc h
+
+/-! ## derived representations -/
+
+/-- functoriality of `_compose` (generator-by-generator application of `hom`): if `hom` denotes a
+multiplicative unit-preserving matrix function `H`, then `ρ_hom(w) = H(ρ(w))` for every word -/
+theorem compose_hom {h : DMat n n R → DMat n n R → M? (DMat m m S)} {ρ : Rep n R} {σ : Rep m S}
+    (H : Matrix (Fin n) (Fin n) R → Matrix (Fin m) (Fin m) S)
+    (hone : H 1 = 1) (hmul : ∀ A B, H (A * B) = H A * H B)
+    (hh : ∀ A Ai B, h A Ai = .ok B → A.toMatrix * Ai.toMatrix = 1 → B.toMatrix = H A.toMatrix)
+    (hc : ρ.Coherent) (hσ : ρ.compose h = .ok σ) {w : Word} {A : Matrix (Fin n) (Fin n) R}
+    (hw : ρ.value w = .ok A) : σ.value w = .ok (H A) :=
+  Rep.compose_value H hone hmul hh hc hσ hw
+
+/-- … and the composed representation satisfies the dict invariant again -/
+theorem compose_wf {h : DMat n n R → DMat n n R → M? (DMat m m S)} {ρ : Rep n R} {σ : Rep m S}
+    (H : Matrix (Fin n) (Fin n) R → Matrix (Fin m) (Fin m) S)
+    (hone : H 1 = 1) (hmul : ∀ A B, H (A * B) = H A * H B)
+    (hh : ∀ A Ai B, h A Ai = .ok B → A.toMatrix * Ai.toMatrix = 1 → B.toMatrix = H A.toMatrix)
+    (hwf : ρ.WF) (hσ : ρ.compose h = .ok σ) : σ.WF :=
+  Rep.compose_coherent H hone hmul hh hwf hσ
+
+/-- `Representation(rep)` (copy): the same dict, hence the same image of every word -/
+theorem copy_hom {ρ σ : Rep n R} (hnd : (ρ.gens.map Prod.fst).Nodup) (h : ρ.copy = .ok σ) (w : Word) :
+    σ.value w = ρ.value w := by rw [Rep.copy_eq hnd h]
+
+/-- `rep.conjugate(C, Ci)`: `w ↦ Ci · ρ(w) · C` -/
+theorem conjugate_hom {ρ σ : Rep n R} {C Ci : DMat n n R} (hC : C.toMatrix * Ci.toMatrix = 1)
+    (hc : ρ.Coherent) (hσ : ρ.conjugate C Ci = .ok σ) {w : Word} {A : Matrix (Fin n) (Fin n) R}
+    (hw : ρ.value w = .ok A) : σ.value w = .ok (Ci.toMatrix * A * C.toMatrix) := by
+  have hC' : Ci.toMatrix * C.toMatrix = 1 := Rep.mul_eq_one_swap hC
+  refine Rep.compose_value (fun X => Ci.toMatrix * X * C.toMatrix) ?_ ?_ ?_ hc hσ hw
+  · simp [hC']
+  · intro X Y
+    calc Ci.toMatrix * (X * Y) * C.toMatrix
+        = Ci.toMatrix * X * (1 : Matrix _ _ R) * Y * C.toMatrix := by simp [Matrix.mul_assoc]
+      _ = Ci.toMatrix * X * C.toMatrix * (Ci.toMatrix * Y * C.toMatrix) := by
+        rw [← hC]; simp only [Matrix.mul_assoc]
+  · intro X Xi B hB _
+    simp only [Except.ok.injEq] at hB
+    subst hB
+    simp
+
+/-- `rep.conjugate(C)` with the inverse computed by `utils.invert` -/
+theorem conjugate_hom' {invert : DMat n n R → Option (DMat n n R)} (hinv : InvertOK invert)
+    {ρ σ : Rep n R} {C : DMat n n R} (hc : ρ.Coherent) (hσ : ρ.conjugate' invert C = .ok σ)
+    {w : Word} {A : Matrix (Fin n) (Fin n) R} (hw : ρ.value w = .ok A) :
+    σ.value w = .ok (C.toMatrix⁻¹ * A * C.toMatrix) := by
+  unfold Rep.conjugate' at hσ
+  cases hi : invert C with
+  | none => rw [hi] at hσ; cases hσ
+  | some Ci =>
+    rw [hi] at hσ
+    have h1 := hinv C Ci hi
+    rw [Matrix.inv_eq_right_inv h1]
+    exact conjugate_hom h1 hc hσ hw
+
+/-- `rep.dual()`: `w ↦ (ρ(w)⁻¹)ᵀ` -/
+theorem dual_hom {invert : DMat n n R → Option (DMat n n R)} (hinv : InvertOK invert)
+    {ρ σ : Rep n R} (hc : ρ.Coherent) (hσ : ρ.dual invert = .ok σ) {w : Word}
+    {A : Matrix (Fin n) (Fin n) R} (hw : ρ.value w = .ok A) : σ.value w = .ok (A⁻¹)ᵀ := by
+  refine Rep.compose_value (fun X => (X⁻¹)ᵀ) ?_ ?_ ?_ hc hσ hw
+  · simp
+  · intro X Y; simp [Matrix.mul_inv_rev, Matrix.transpose_mul]
+  · intro X Xi B hB _
+    cases hi : invert X with
+    | none => simp [hi] at hB
+    | some Xi' =>
+      simp only [hi, Except.ok.injEq] at hB
+      subst hB
+      rw [DMat.toMatrix_transpose, Matrix.inv_eq_right_inv (hinv X Xi' hi)]
+
+/-- `rep.astype(dtype)` for an exact conversion (a ring homomorphism `f`): `w ↦ f(ρ(w))` entrywise -/
+theorem astype_hom (f : R →+* S) {ρ : Rep n R} {σ : Rep n S} (hc : ρ.Coherent)
+    (hσ : ρ.astype f = .ok σ) {w : Word} {A : Matrix (Fin n) (Fin n) R} (hw : ρ.value w = .ok A) :
+    σ.value w = .ok (A.map f) := by
+  refine Rep.compose_value (fun X => X.map f) ?_ ?_ ?_ hc hσ hw
+  · simp
+  · intro X Y; exact Matrix.map_mul
+  · intro X Xi B hB _
+    simp only [Except.ok.injEq] at hB
+    subst hB
+    simp
+
+
+/-- `rep.gln_adjoint()`: `w ↦ Ad(ρ(w)) = ρ(w) ⊗ (ρ(w)⁻¹)ᵀ` in the basis `E_ij` (row-major) -/
+theorem gln_adjoint_hom {ρ : Rep n R} {σ : Rep (n * n) R} (hc : ρ.Coherent)
+    (hσ : ρ.glnAdjoint = .ok σ) {w : Word} {A : Matrix (Fin n) (Fin n) R} (hw : ρ.value w = .ok A) :
+    σ.value w = .ok (Rep.kron A (A⁻¹)ᵀ) := by
+  refine Rep.compose_value (fun X => Rep.kron X (X⁻¹)ᵀ) ?_ ?_ ?_ hc hσ hw
+  · simp [Rep.kron_one]
+  · intro X Y
+    rw [Matrix.mul_inv_rev, Matrix.transpose_mul, Rep.kron_mul]
+  · intro X Xi B hB hX
+    simp only [Except.ok.injEq] at hB
+    subst hB
+    rw [Rep.glnAdjointMat_toMatrix, Matrix.inv_eq_right_inv hX]
+
+/-- `rep.sln_adjoint()`: `w ↦` the matrix of `M ↦ ρ(w)·M·ρ(w)⁻¹` on traceless matrices in the
+basis `E_ij (i ≠ j), E_ii − E_nn` (`Rep.slnAd`, the literal `sln_linear_action`); it is
+multiplicative because conjugation by an invertible matrix preserves the trace
+(`Rep.slnAd_mul`, `Rep.slnAd_one`) -/
+theorem sln_adjoint_hom {k : ℕ} {ρ : Rep (k + 1) R} {σ : Rep ((k + 1) * (k + 1) - 1) R}
+    (hc : ρ.Coherent) (hσ : ρ.slnAdjoint = .ok σ) {w : Word}
+    {A : Matrix (Fin (k + 1)) (Fin (k + 1)) R} (hw : ρ.value w = .ok A) :
+    σ.value w = .ok (Rep.slnAd A A⁻¹) := by
+  refine Rep.compose_value_units (fun X => Rep.slnAd X X⁻¹) ?_ ?_ ?_ hc hσ hw
+  · simp [Rep.slnAd_one]
+  · intro X Y _ _ hY _
+    simp only [Matrix.mul_inv_rev]
+    exact Rep.slnAd_mul hY
+  · intro X Xi B hB hX
+    simp only [Except.ok.injEq] at hB
+    subst hB
+    rw [Rep.slnAdjointMat_toMatrix, Matrix.inv_eq_right_inv hX]
+
+/-- the double `np.concatenate` of `np.tensordot(A, B, axes=0)` is Mathlib's Kronecker product -/
+theorem tensorMat_eq_kronecker {p : ℕ} (A : DMat n n R) (B : DMat p p R) :
+    (Rep.tensorMat A B).toMatrix =
+      Matrix.reindex finProdFinEquiv finProdFinEquiv (Matrix.kroneckerMap (· * ·) A.toMatrix B.toMatrix) :=
+  Rep.tensorMat_toMatrix A B
+
+/-- `rep.tensor_product(other)`: `w ↦ ρ(w) ⊗ σ(w)` for every word over the generators and their
+inverses (`NamesOK`: distinct names, none the inverse of another — true of every dict of valid
+generator names, see `names_ok_of_valid`) -/
+theorem tensor_hom {p : ℕ} {invert : DMat (n * p) (n * p) R → Option (DMat (n * p) (n * p) R)}
+    (hinv : InvertOK invert) {ρ : Rep n R} {σ : Rep p R} {τ : Rep (n * p) R}
+    (hτ : ρ.tensorProduct invert σ = .ok τ) (hcρ : ρ.Coherent) (hcσ : σ.Coherent)
+    (hn : Rep.NamesOK invertGen ρ.asymGens)
+    (hpρ : ∀ g ∈ ρ.asymGens, parseWord ρ.parseSimple g = [g])
+    (hpσ : ∀ g ∈ ρ.asymGens, parseWord σ.parseSimple g = [g])
+    (hiρ : ∀ g ∈ ρ.asymGens, ρ.inv g = invertGen g) (hiσ : ∀ g ∈ ρ.asymGens, σ.inv g = invertGen g)
+    (w : Word) (hw : ∀ x ∈ w, x ∈ ρ.asymGens ∨ ∃ g ∈ ρ.asymGens, x = invertGen g)
+    {A : Matrix (Fin n) (Fin n) R} {B : Matrix (Fin p) (Fin p) R}
+    (hA : ρ.value w = .ok A) (hB : σ.value w = .ok B) :
+    τ.value w = .ok (Rep.kron A B) ∧ τ.WF :=
+  Rep.tensor_value hinv hτ hcρ hcσ hn hpρ hpσ hiρ hiσ w hw hA hB
+
+/-- `sym_index` is a bijection from unordered pairs of `0..n-1` onto `0..n(n+1)/2 - 1` (the
+float formula `int((n-i)(n-i-1)/2 + (j-i))` is exact because the product is even) -/
+theorem symIndex_bijective {n : ℕ} :
+    (∀ i j, i < n → j < n → Rep.symIndex i j n < Rep.symDim n) ∧
+    (∀ i j u v, i < n → j < n → u < n → v < n → Rep.symIndex i j n = Rep.symIndex u v n →
+      (i = u ∧ j = v) ∨ (i = v ∧ j = u)) ∧
+    (∀ s, s < Rep.symDim n → ∃ i j, i ≤ j ∧ j < n ∧ Rep.symIndex i j n = s) :=
+  ⟨fun _ _ hi hj => Rep.symIndex_lt hi hj, fun _ _ _ _ hi hj hu hv h => Rep.symIndex_inj hi hj hu hv h,
+   fun _ h => Rep.symIndex_surj h⟩
+
+/-- `A ↦ P·(A ⊗ A)·I` (`symmetric_projection`, Kronecker square, `symmetric_inclusion`) is a
+monoid homomorphism when `2·half = 1` -/
+theorem symH_hom {half : R} (hh : 2 * half = 1) :
+    Rep.symH half (1 : Matrix (Fin n) (Fin n) R) = 1 ∧
+    ∀ X Y : Matrix (Fin n) (Fin n) R, Rep.symH half (X * Y) = Rep.symH half X * Rep.symH half Y :=
+  ⟨Rep.symH_one hh, Rep.symH_mul hh⟩
+
+/-- `rep.symmetric_square()` (repaired code): `w ↦ P·(ρ(w) ⊗ ρ(w))·I` -/
+theorem symmetric_square_hom {half : R} (hh : 2 * half = 1)
+    {invertT : DMat (n * n) (n * n) R → Option (DMat (n * n) (n * n) R)}
+    {invertS : DMat (Rep.symDim n) (Rep.symDim n) R → Option (DMat (Rep.symDim n) (Rep.symDim n) R)}
+    (hiT : InvertOK invertT) (hiS : InvertOK invertS)
+    {ρ : Rep n R} {σ : Rep (Rep.symDim n) R} (hσ : ρ.symmetricSquare half invertT invertS = .ok σ)
+    (hc : ρ.Coherent) (hn : Rep.NamesOK invertGen ρ.asymGens)
+    (hp : ∀ g ∈ ρ.asymGens, parseWord ρ.parseSimple g = [g])
+    (hi : ∀ g ∈ ρ.asymGens, ρ.inv g = invertGen g)
+    (w : Word) (hw : ∀ x ∈ w, x ∈ ρ.asymGens ∨ ∃ g ∈ ρ.asymGens, x = invertGen g)
+    {A : Matrix (Fin n) (Fin n) R} (hA : ρ.value w = .ok A) :
+    σ.value w = .ok (Rep.symH half A) ∧ σ.WF :=
+  Rep.sym2_value hh hiT hiS hσ hc hn hp hi w hw hA
+
+/-- `rep.subgroup({g: word})` (default `compute_inverse=True`): a word in the new generators is
+sent to the image of the word obtained by substitution (`g ↦ word(g)`,
+`invert_gen(g) ↦ formal_inverse(word(g))`) -/
+theorem subgroup_hom {invert : DMat n n R → Option (DMat n n R)} (hinv : InvertOK invert)
+    {ρ σ : Rep n R} {pairs : List (Gen × Word)} {rels : List Word}
+    (hσ : ρ.subgroup invert pairs true rels = .ok σ) (hc : ρ.Coherent)
+    (hn : Rep.NamesOK invertGen (pairs.map Prod.fst))
+    (u : Word) (hu : ∀ x ∈ u, x ∈ pairs.map Prod.fst ∨ ∃ g ∈ pairs.map Prod.fst, x = invertGen g)
+    {A : Matrix (Fin n) (Fin n) R} (hA : ρ.value (Rep.substWord ρ.inv pairs u) = .ok A) :
+    σ.value u = .ok A ∧ σ.WF :=
+  Rep.subgroup_value hinv hσ hc hn u hu hA
+
+/-- the side conditions on names used above hold for every dict of names that `_set_generator`
+accepts -/
+theorem names_ok_of_valid (ρ : Rep n R) (hnd : (ρ.gens.map Prod.fst).Nodup)
+    (hv : ∀ g ∈ ρ.gens.map Prod.fst, validName g = true) : Rep.NamesOK invertGen ρ.asymGens := by
+  obtain ⟨h1, h2, h3⟩ := Fox.side_conditions_of_valid ρ hnd hv
+  exact ⟨h1, h3, h2⟩
+
+/-! ## Fox calculus -/
+
+/-- all keys of a Fox derivative are distinct and freely reduced, so the dict comprehension in
+`words.simplify` never merges two keys (it would overwrite, not add, coefficients) -/
+theorem simplify_keys_reduced (inv : Gen → Gen) (g : Gen) (w : Word) {d : ZWord}
+    (h : foxDeriv inv g w = some d) :
+    (d.map Prod.fst).Nodup ∧ ∀ k ∈ d.map Prod.fst, simplifyWord inv k = k :=
+  Fox.foxDeriv_keys_simplify inv g w h
+
+/-- … hence `act_left` acts key by key -/
+theorem actLeft_no_merge {inv : Gen → Gen} {x : Gen} (hx : inv (inv x) = x) (g : Gen) (w : Word)
+    {d : ZWord} (h : foxDeriv inv g w = some d) :
+    actLeft inv [x] d = d.map (fun kv => (simplifyWord inv (x :: kv.1), kv.2)) :=
+  Fox.actLeft_foxDeriv_eq_map hx g w h
+
+/-- **fundamental formula of Fox calculus** for the executable `differential`:
+`ρ(w) − 1 = Σ_g D_g(w)·(ρ(g) − 1)`, equivalently `differential(w) @ coboundary_matrix = 1 − ρ(w)`,
+for every non-empty word over the generators and their inverses -/
+theorem fox_fundamental {ρ : Rep n R} (hinv : ρ.inv = invertGen) (hcoh : ρ.Coherent)
+    (H1 : ρ.asymGens.Nodup)
+    (H2 : ∀ g ∈ ρ.asymGens, ∀ h ∈ ρ.asymGens, invertGen g ≠ h)
+    (H5 : ∀ g ∈ ρ.asymGens, invertGen (invertGen g) = g)
+    (hgen : ∀ g ∈ ρ.asymGens, ∃ A, ρ.genM g = .ok A)
+    {w : Word} (hw : w ≠ [])
+    (hl : ∀ x ∈ w, x ∈ ρ.asymGens ∨ ∃ g ∈ ρ.asymGens, x = invertGen g) :
+    ∃ blocks cb A, ρ.differential w = .ok blocks ∧ blocks.length = ρ.asymGens.length ∧
+      ρ.coboundaryMatrix = .ok cb ∧ ρ.value w = .ok A ∧
+      (Rep.blockDot blocks cb).toMatrix = 1 - A ∧
+      (List.zipWith (fun (B : DMat n n R) g => B.toMatrix * (Fox.gmat ρ g - 1)) blocks ρ.asymGens).sum = A - 1 :=
+  Fox.fox_fundamental hinv hcoh H1 H2 H5 hgen hw hl
+
+/-- the empty word has no Fox derivative in the code (`word[0]` raises `IndexError`) -/
+theorem differential_nil (ρ : Rep n R) (g : Gen) : ρ.differentialAt [] g = .error "IndexError" :=
+  Fox.differentialAt_nil ρ g
+
+/-- `cocycle_matrix @ coboundary_matrix`: the block row of a relation `r` gives `1 − ρ(r)` -/
+theorem cocycle_mul_coboundary {ρ : Rep n R} (hinv : ρ.inv = invertGen) (hcoh : ρ.Coherent)
+    (H1 : ρ.asymGens.Nodup)
+    (H2 : ∀ g ∈ ρ.asymGens, ∀ h ∈ ρ.asymGens, invertGen g ≠ h)
+    (H5 : ∀ g ∈ ρ.asymGens, invertGen (invertGen g) = g)
+    (hgen : ∀ g ∈ ρ.asymGens, ∃ A, ρ.genM g = .ok A)
+    (hrel : ∀ r ∈ ρ.relations, r ≠ [] ∧ ∀ x ∈ r, x ∈ ρ.asymGens ∨ ∃ g ∈ ρ.asymGens, x = invertGen g) :
+    ∃ rows cb, ρ.cocycleMatrix = .ok rows ∧ ρ.coboundaryMatrix = .ok cb ∧
+      List.Forall₂ (fun r row => ∃ A, ρ.value r = .ok A ∧ (Rep.blockDot row cb).toMatrix = 1 - A)
+        ρ.relations rows :=
+  Fox.cocycle_mul_coboundary hinv hcoh H1 H2 H5 hgen hrel
+
+/-- … so the cocycle matrix of satisfied relations annihilates the coboundary matrix -/
+theorem cocycle_mul_coboundary_eq_zero {ρ : Rep n R} (hinv : ρ.inv = invertGen) (hcoh : ρ.Coherent)
+    (H1 : ρ.asymGens.Nodup)
+    (H2 : ∀ g ∈ ρ.asymGens, ∀ h ∈ ρ.asymGens, invertGen g ≠ h)
+    (H5 : ∀ g ∈ ρ.asymGens, invertGen (invertGen g) = g)
+    (hgen : ∀ g ∈ ρ.asymGens, ∃ A, ρ.genM g = .ok A)
+    (hrel : ∀ r ∈ ρ.relations, r ≠ [] ∧ ∀ x ∈ r, x ∈ ρ.asymGens ∨ ∃ g ∈ ρ.asymGens, x = invertGen g)
+    (hsat : ∀ r ∈ ρ.relations, ρ.value r = .ok 1) :
+    ∃ rows cb, ρ.cocycleMatrix = .ok rows ∧ ρ.coboundaryMatrix = .ok cb ∧
+      rows.length = ρ.relations.length ∧ ∀ row ∈ rows, (Rep.blockDot row cb).toMatrix = 0 :=
+  Fox.cocycle_mul_coboundary_eq_zero hinv hcoh H1 H2 H5 hgen hrel hsat
+
+
+/-! ## non-vacuity: the hypotheses above are met by a concrete representation
+
+`Fox.exRep : Rep 2 ℤ` has `a, b ↦` the elementary matrices of `SL(2,ℤ)` and `A, B ↦` their
+inverses (what two assignments `rep["a"] = …; rep["b"] = …` store). -/
+
+section examples
+open Fox
+
+private def C₀ : DMat 2 2 ℤ := DMat.ofMatrix !![1, 1; 0, 1]
+private def Ci₀ : DMat 2 2 ℤ := DMat.ofMatrix !![1, -1; 0, 1]
+
+/-- word homomorphism / inverse letter / free reduction / formal inverse on `abAB` -/
+example : ∃ A, exRep.value ["a", "b", "A", "B"] = .ok A ∧
+    exRep.value (simplifyWord exRep.inv (["a", "b", "A", "B"] ++ ["b", "B"])) = .ok A ∧
+    exRep.value (formalInverse exRep.inv ["a", "b", "A", "B"]) = .ok A⁻¹ := by
+  obtain ⟨A, hA⟩ : ∃ A, exRep.value ["a", "b", "A", "B"] = .ok A := ⟨_, rfl⟩
+  obtain ⟨B, hB⟩ : ∃ B, exRep.value ["b"] = .ok B := ⟨_, rfl⟩
+  obtain ⟨hBi, hB1, _⟩ := wordValue_inv_letter exRep_coherent hB
+  have h2 : exRep.value (["a", "b", "A", "B"] ++ (["b"] ++ [exRep.inv "b"])) = .ok (A * (B * B⁻¹)) :=
+    Rep.value_append_ok _ hA (Rep.value_append_ok _ hB hBi)
+  rw [hB1, Matrix.mul_one] at h2
+  exact ⟨A, hA, wordValue_simplify exRep_coherent h2, wordValue_formalInverse exRep_coherent hA⟩
+
+/-- the assignment `rep["c"] = M` on top of `exRep` keeps the dict invariant -/
+example : ∃ σ, exRep.setGenerator Rep.invertZ "c" C₀ true = .ok σ ∧ σ.WF := by
+  obtain ⟨σ, hσ⟩ : ∃ σ, exRep.setGenerator Rep.invertZ "c" C₀ true = .ok σ := ⟨_, rfl⟩
+  refine ⟨σ, hσ, setGenerator_coherent Rep.invertZ_ok ⟨exRep_coherent, ?_⟩ (by decide) (by decide) hσ⟩
+  intro g X hX
+  rw [exRep_genM] at hX
+  split_ifs at hX with h1 h2 h3 h4 <;> (subst_vars; decide)
+
+/-- conjugate, dual, astype, gln_adjoint -/
+example : ∃ σ A, exRep.conjugate C₀ Ci₀ = .ok σ ∧ exRep.value ["a", "b"] = .ok A ∧
+    σ.value ["a", "b"] = .ok (Ci₀.toMatrix * A * C₀.toMatrix) := by
+  obtain ⟨σ, hσ⟩ : ∃ σ, exRep.conjugate C₀ Ci₀ = .ok σ := ⟨_, rfl⟩
+  obtain ⟨A, hA⟩ : ∃ A, exRep.value ["a", "b"] = .ok A := ⟨_, rfl⟩
+  exact ⟨σ, A, hσ, hA, conjugate_hom (by decide) exRep_coherent hσ hA⟩
+
+example : ∃ σ A, exRep.dual Rep.invertZ = .ok σ ∧ exRep.value ["a", "B"] = .ok A ∧
+    σ.value ["a", "B"] = .ok (A⁻¹)ᵀ := by
+  obtain ⟨σ, hσ⟩ : ∃ σ, exRep.dual Rep.invertZ = .ok σ := ⟨_, rfl⟩
+  obtain ⟨A, hA⟩ : ∃ A, exRep.value ["a", "B"] = .ok A := ⟨_, rfl⟩
+  exact ⟨σ, A, hσ, hA, dual_hom Rep.invertZ_ok exRep_coherent hσ hA⟩
+
+example : ∃ (σ : Rep 2 ℚ) (A : Matrix (Fin 2) (Fin 2) ℤ), exRep.astype (Int.castRingHom ℚ) = .ok σ ∧ exRep.value ["a", "b"] = .ok A ∧
+    σ.value ["a", "b"] = .ok (A.map (Int.castRingHom ℚ)) := by
+  obtain ⟨σ, hσ⟩ : ∃ σ : Rep 2 ℚ, exRep.astype (Int.castRingHom ℚ) = .ok σ := ⟨_, rfl⟩
+  obtain ⟨A, hA⟩ : ∃ A, exRep.value ["a", "b"] = .ok A := ⟨_, rfl⟩
+  exact ⟨σ, A, hσ, hA, astype_hom _ exRep_coherent hσ hA⟩
+
+example : ∃ σ A, exRep.glnAdjoint = .ok σ ∧ exRep.value ["a", "b"] = .ok A ∧
+    σ.value ["a", "b"] = .ok (Rep.kron A (A⁻¹)ᵀ) := by
+  obtain ⟨σ, hσ⟩ : ∃ σ, exRep.glnAdjoint = .ok σ := ⟨_, rfl⟩
+  obtain ⟨A, hA⟩ : ∃ A, exRep.value ["a", "b"] = .ok A := ⟨_, rfl⟩
+  exact ⟨σ, A, hσ, hA, gln_adjoint_hom exRep_coherent hσ hA⟩
+
+example : ∃ σ A, Rep.slnAdjoint exRep = .ok σ ∧ exRep.value ["a", "b"] = .ok A ∧
+    σ.value ["a", "b"] = .ok (Rep.slnAd A A⁻¹) := by
+  obtain ⟨σ, hσ⟩ : ∃ σ, Rep.slnAdjoint exRep = .ok σ := ⟨_, rfl⟩
+  obtain ⟨A, hA⟩ : ∃ A, exRep.value ["a", "b"] = .ok A := ⟨_, rfl⟩
+  exact ⟨σ, A, hσ, hA, sln_adjoint_hom exRep_coherent hσ hA⟩
+
+private theorem exNames : Rep.NamesOK invertGen exRep.asymGens := by
+  rw [exRep_asymGens]
+  exact ⟨by decide, by decide, by decide⟩
+
+/-- tensor product with itself -/
+example : ∃ τ A, exRep.tensorProduct Rep.invertZ exRep = .ok τ ∧ exRep.value ["a", "B"] = .ok A ∧
+    τ.value ["a", "B"] = .ok (Rep.kron A A) := by
+  obtain ⟨τ, hτ⟩ : ∃ τ, exRep.tensorProduct Rep.invertZ exRep = .ok τ := ⟨_, rfl⟩
+  obtain ⟨A, hA⟩ : ∃ A, exRep.value ["a", "B"] = .ok A := ⟨_, rfl⟩
+  refine ⟨τ, A, hτ, hA, (tensor_hom Rep.invertZ_ok hτ exRep_coherent exRep_coherent exNames
+    ?_ ?_ ?_ ?_ ["a", "B"] ?_ hA hA).1⟩
+  all_goals (rw [exRep_asymGens]; decide)
+
+/-! symmetric square over `ZMod 3`, where `2·2 = 1` (and everything reduces by `rfl`) -/
+
+private def inv3 {k : ℕ} (A : DMat k k (ZMod 3)) : Option (DMat k k (ZMod 3)) :=
+  let d := A.toMatrix.det
+  if d * d = 1 then some (DMat.ofMatrix (d • A.toMatrix.adjugate)) else none
+
+private theorem inv3_ok {k : ℕ} : InvertOK (inv3 (k := k)) := by
+  intro A X h
+  unfold inv3 at h
+  simp only at h
+  split_ifs at h with hd
+  cases h
+  rw [DMat.toMatrix_ofMatrix, Matrix.mul_smul, Matrix.mul_adjugate, smul_smul, hd, one_smul]
+
+private def ex3 : Rep 2 (ZMod 3) :=
+  { gens := [("a", DMat.ofMatrix !![1, 1; 0, 1]), ("A", DMat.ofMatrix !![1, 2; 0, 1])] }
+
+private theorem ex3_genM (g : Gen) :
+    ex3.genM g = if "a" = g then .ok !![1, 1; 0, 1] else if "A" = g then .ok !![1, 2; 0, 1]
+      else .error "KeyError" := by
+  unfold Rep.genM Rep.gen ex3
+  simp only [dget]
+  split_ifs <;> simp [Except.map]
+
+private theorem ex3_coherent : ex3.Coherent := by
+  intro g A h
+  have hinv : ex3.inv = invertGen := rfl
+  have e1 : invertGen "a" = "A" := by decide
+  have e2 : invertGen "A" = "a" := by decide
+  rw [ex3_genM] at h
+  rw [hinv]
+  split_ifs at h with h1 h2
+  · subst h1; cases h
+    refine ⟨!![1, 2; 0, 1], by rw [ex3_genM, e1]; rfl, ?_, ?_⟩ <;>
+      (ext i j; fin_cases i <;> fin_cases j <;> rfl)
+  · subst h2; cases h
+    refine ⟨!![1, 1; 0, 1], by rw [ex3_genM, e2]; rfl, ?_, ?_⟩ <;>
+      (ext i j; fin_cases i <;> fin_cases j <;> rfl)
+
+example : ∃ σ A, ex3.symmetricSquare 2 inv3 inv3 = .ok σ ∧ ex3.value ["a", "a", "A"] = .ok A ∧
+    σ.value ["a", "a", "A"] = .ok (Rep.symH 2 A) := by
+  obtain ⟨σ, hσ⟩ : ∃ σ, ex3.symmetricSquare 2 inv3 inv3 = .ok σ := ⟨_, rfl⟩
+  obtain ⟨A, hA⟩ : ∃ A, ex3.value ["a", "a", "A"] = .ok A := ⟨_, rfl⟩
+  have hasym : ex3.asymGens = ["a"] := by decide
+  refine ⟨σ, A, hσ, hA, (symmetric_square_hom (by decide) inv3_ok inv3_ok hσ ex3_coherent
+    (by rw [hasym]; exact ⟨by decide, by decide, by decide⟩) ?_ ?_ _ ?_ hA).1⟩
+  all_goals (rw [hasym]; decide)
+
+/-- subgroup generated by `x = ab`, `y = bA` -/
+example : ∃ σ A, exRep.subgroup Rep.invertZ [("x", ["a", "b"]), ("y", ["b", "A"])] true [] = .ok σ ∧
+    exRep.value (["a", "b"] ++ ["a", "B"]) = .ok A ∧ σ.value ["x", "Y"] = .ok A := by
+  obtain ⟨σ, hσ⟩ : ∃ σ, exRep.subgroup Rep.invertZ [("x", ["a", "b"]), ("y", ["b", "A"])] true [] = .ok σ :=
+    ⟨_, rfl⟩
+  obtain ⟨A, hA⟩ : ∃ A, exRep.value (["a", "b"] ++ ["a", "B"]) = .ok A := ⟨_, rfl⟩
+  refine ⟨σ, A, hσ, hA, (subgroup_hom Rep.invertZ_ok hσ exRep_coherent ⟨by decide, by decide, by decide⟩
+    ["x", "Y"] (by decide) ?_).1⟩
+  have : Rep.substWord exRep.inv [("x", ["a", "b"]), ("y", ["b", "A"])] ["x", "Y"] = ["a", "b"] ++ ["a", "B"] := by
+    decide
+  rw [this]; exact hA
+
+end examples
+
+end GT.C05
